@@ -1256,6 +1256,8 @@ class _NP:
         return self._new(a.shape, dtype or getattr(a, "ldtype", None) or a.dtype, 1)
 
     def array(self, x, dtype=None, copy=True):
+        if dtype is not None and _ldt(dtype) is not None and _ldt(dtype).kind in "SUO":
+            return _np.array(x, dtype=dtype)
         if isinstance(x, SArray):
             r = x.copy()
             if dtype is not None:
@@ -1787,6 +1789,36 @@ class _Numba:
 
     jit = njit
 
+    @staticmethod
+    def vectorize(*a, **k):
+        """numba.vectorize -> numpy.vectorize of the Python function"""
+        def deco(f):
+            vf = _np.vectorize(f)
+
+            def g(*args):
+                arrs = [_np.asarray(x) for x in args]
+                if any(x.size == 0 for x in arrs):
+                    return _np.zeros(_np.broadcast(*arrs).shape, dtype=_np.int64)
+                return vf(*args)
+
+            return g
+        if len(a) == 1 and callable(a[0]) and not k:
+            return deco(a[0])
+        return deco
+
+    @staticmethod
+    def guvectorize(sigs, layout, **k):
+        """numba.guvectorize -> numpy.vectorize with the same core signature; the kernel writes into its last argument"""
+        def deco(f):
+            outs = layout.split("->")[1]
+            def kernel(*args):
+                ref = _np.asarray(args[0])
+                out = _np.empty(ref.shape, dtype=ref.dtype)
+                f(*args, out)
+                return out
+            return _np.vectorize(kernel, signature=layout)
+        return deco
+
     class typed:
         class Dict:
             @staticmethod
@@ -1827,6 +1859,8 @@ NUMBA = _Numba()
 
 def symfloat(s):
     f = float(s)
+    if cfg.concrete_floats:
+        return f  # fully concrete modules keep native floats
     if f in _LOGCONST:
         return SymReal.const(f)
     return SymReal(z3.RealVal(Fraction(s)))
